@@ -3,6 +3,7 @@ import Fabio.Model.C20Spec
 import Fabio.Model.C20Capture
 import Fabio.Model.C20Url
 import Fabio.Model.C20Serve
+import Fabio.Model.C20Time
 import Fabio.Generated.C20
 /-!
 Driver handlers for C20. For every stream: `model` = output of the Lean model on the case's input,
@@ -200,6 +201,9 @@ def hostportH : Handler := fun inp impl => do
     | _ => false
   let colons := s.toList.count ':'
   let tag := if isPanicJ impl then "panic" else if s.isEmpty then "empty" else if colons == 0 then "nocolon"
+    else if s.length > 64 then "long"
+    else if s.toList.head? == some '[' then "bracketed"
+    else if s.toList.getLast? == some ':' then "ends-with-colon"
     else if colons == 1 then "colon" else "colons"
   return ({ model := m, agree := m == ci && XL.hostport s ci, spec := spec, nontrivial := !s.isEmpty, tag := tag } : Verdict).toJson
 
@@ -355,19 +359,9 @@ def wellSeparated : List RItem → Bool
       | [] => true
     selfOk && nextOk && wellSeparated rest
 
-/-- Day count → civil date (proleptic Gregorian), independent of Go's `time`: used to cross-check the UTC
-calendar fields the harness reports for `End`. -/
-def civilFromDays (z0 : Int) : Int × Int × Int :=
-  let z := z0 + 719468
-  let era := z / 146097
-  let doe := z - era * 146097
-  let yoe := (doe - doe / 1460 + doe / 36524 - doe / 146096) / 365
-  let y := yoe + era * 400
-  let doy := doe - (365 * yoe + yoe / 4 - yoe / 100)
-  let mp := (5 * doy + 2) / 153
-  let d := doy - (153 * mp + 2) / 5 + 1
-  let m := if mp < 10 then mp + 3 else mp - 9
-  (if m ≤ 2 then y + 1 else y, m, d)
+/-- Day count → civil date: `Model/C20Time.lean` (independent of Go's `time`; proved to invert the Gregorian day
+count in `Props/C20Time.lean`): used to cross-check the UTC calendar fields the harness reports for `End`. -/
+def civilFromDays (z0 : Int) : Int × Int × Int := Fabio.Model.C20Time.civilFromDays z0
 
 def clamp64 (x : Int) : Int := if x < -(2^63) then -(2^63) else if x ≥ 2^63 then 2^63 - 1 else x
 
